@@ -248,7 +248,7 @@ func c17(r *Run) {
 		for i, a := range acq {
 			shard := argVal(callCommon(a), 0)
 			r.mustPass(fmt.Sprintf("C17.R3:shard-lock-released:%s#%d", w.FnName(fn), i+1), "the shard spin lock is released on every path after it was taken", fn, a, []Start{After(a)},
-				func(x ssa.Instruction) bool { return isCall(x, qunlock) && argVal(callCommon(x), 0) == shard }, nil, nil, "q.unlock(shard) on every path")
+				func(x ssa.Instruction) bool { return isCallOrDefer(x, qunlock) && argVal(callCommon(x), 0) == shard }, nil, nil, "q.unlock(shard) on every path")
 		}
 		// every access to getters[...] is between lock and unlock
 		for _, ins := range findIns(fn, func(i ssa.Instruction) bool {
